@@ -171,7 +171,10 @@ theorem combine_real_spec (i : Int) (f1 f2 r : Row) (h : Gen.combine_real_factoi
   unfold Gen.combine_real_factoid at h
   split at h
   · simp at h
-  · rename_i hc
+  split at h
+  · simp at h
+  rename_i hc
+  · skip
     simp only [Bool.not_eq_false, Bool.and_eq_true, decide_eq_true_eq, Bool.not_eq_eq_eq_not, Bool.not_true] at hc
     simp only [Py.factoid] at h
     split at h
